@@ -362,7 +362,15 @@ Definition fin_inputs (m : list X) : list (Q * Q) :=
 Definition est_in_range (m : list X) (x : X) : Prop :=
   (fin_inputs m = [] /\ x = NaN) \/
   (exists lo hi v, is_lo lo (fin_inputs m) /\ is_hi hi (fin_inputs m) /\ x = Fin v /\ (lo <= v <= hi)%Q).
-(* what ApproxQuantiles / ApproxMedian owe for the inputs m *)
-Definition aq_spec (qs : list X) (m : list X) (o : list X) : Prop :=
-  length o = length qs /\ forall x, In x o -> est_in_range m x.
+(* the estimate x for the requested q: as above and, in addition, EXACTLY the smallest finite
+   input when q <= 0 and the largest when q >= 1 *)
+Definition est_for (m : list X) (q x : X) : Prop :=
+  (fin_inputs m = [] /\ x = NaN) \/
+  (exists lo hi v, is_lo lo (fin_inputs m) /\ is_hi hi (fin_inputs m) /\ x = Fin v /\
+                   (lo <= v <= hi)%Q /\
+                   (xleb q (Fin 0) = true -> v = lo) /\
+                   (xleb (Fin 1) q = true -> (v == hi)%Q)).
+(* what ApproxQuantiles / ApproxMedian owe for the inputs m: one estimate per requested q, in the
+   order of the request *)
+Definition aq_spec (qs : list X) (m : list X) (o : list X) : Prop := Forall2 (est_for m) qs o.
 Definition am_spec (m : list X) (o : X) : Prop := est_in_range m o.
